@@ -214,8 +214,10 @@ impl FileManager {
         handle: FileHandle,
         fields: Vec<Field>,
     ) -> Result<(), RuntimeError> {
-        // TODO if sum(field width) > rec_len, throw error
         let file_info = self.try_get_file_info(&handle)?;
+        if !field_list_fits(&fields, file_info.rec_len) {
+            return Err(RuntimeError::FieldOverflow);
+        }
         file_info.add_field_list(fields);
         Ok(())
     }
@@ -238,6 +240,18 @@ impl FileManager {
             variable_name
         )))
     }
+}
+
+/// Checks that the fields of a `FIELD` statement fit in a record of `rec_len` bytes.
+fn field_list_fits(fields: &[Field], rec_len: usize) -> bool {
+    let mut remaining: usize = rec_len;
+    for field in fields.iter() {
+        if field.width > remaining {
+            return false;
+        }
+        remaining -= field.width;
+    }
+    true
 }
 
 #[derive(Clone)]
